@@ -1304,7 +1304,7 @@ std::ostream& expression_t::print(std::ostream& os, bool old) const
             if (text.find_first_of(".en") == std::string_view::npos)
                 os << ".0";
         } else if (get_type().is_string()) {
-            os << get_string_value();
+            os << std::quoted(get_string_value());
         } else if (get_type().is_integer()) {
             os << std::get<int32_t>(data->value);
         } else {
@@ -1601,7 +1601,7 @@ std::ostream& expression_t::print(std::ostream& os, bool old) const
             get(1).print(os << "{", old) << "} -> {";
             get(2).print(os, old) << "}";
         }
-        get(0).print(os << "(\"", old) << "\")";
+        get(0).print(os << "(", old) << ")";
         break;
 
     case PO_CONTROL:
